@@ -56,19 +56,45 @@ theorem only_bare_V_rewritten (stmts : List Stmt) (h : ∀ tail, stmts ≠ .V []
 
 /-- `hasLabel(x)`, `has(eq(k,x))`, `has(within(k,[x]))` and their `and()`-wrapped forms keep
     exactly the same travelers, for every key `k` that addresses the label of the current element
-    (`GetNamespace(k)` current and `GetJSONPath(k) = "$.label"`: `_label`, `$._label`). -/
+    (`GetNamespace(k)` current and `GetJSONPath(k) = "$.label"`: `_label`, `$._label`) — on rows
+    that HAVE a current element, or for a label other than "" (a row without current element, which
+    only the `*Null` moves produce, reads as label "" under `has` but is dropped by `hasLabel`
+    whatever the labels are: `spellings_differ_on_null_row`). -/
 theorem spellings_agree_label (k x : String) (hc : keyIsCurrent k = true)
-    (hp : Path.jsonPathOf k = ["label"]) (from_ : DataType) (ts : List Traveler) :
+    (hp : Path.jsonPathOf k = ["label"]) (from_ : DataType) (ts : List Traveler)
+    (hrows : x = "" → ∀ t ∈ ts, t.cur.isSome = true) :
     evalStepT numOf g from_ (.has (.cond k .eq (.str x))) ts = evalStepT numOf g from_ (.hasLabel [x]) ts
     ∧ evalStepT numOf g from_ (.has (.cond k .within (.arr [.str x]))) ts = evalStepT numOf g from_ (.hasLabel [x]) ts
     ∧ evalStepT numOf g from_ (.has (.and [.cond k .eq (.str x)])) ts = evalStepT numOf g from_ (.hasLabel [x]) ts
     ∧ evalStepT numOf g from_ (.has (.and [.and [.cond k .within (.arr [.str x])]])) ts
         = evalStepT numOf g from_ (.hasLabel [x]) ts := by
   have hv := fun t => value_label t k hc hp
+  have hsome : ∀ t ∈ ts, t.cur.isSome = true ∨ curLabel t ≠ x := by
+    intro t ht
+    cases hcur : t.cur with
+    | some c => exact Or.inl rfl
+    | none =>
+      by_cases hx : x = ""
+      · exact Or.inl (by rw [← hcur]; exact hrows hx t ht)
+      · exact Or.inr (by simp [curLabel, hcur]; exact fun h => hx h)
   refine ⟨?_, ?_, ?_, ?_⟩ <;>
-    (simp only [evalStepT]; congr 1; funext t
-     simp [keepHas, evalHas, evalHasList, allTrue, keepHasLabel, matchesCond, foundIn, hv t, str_beq]
-     try (by_cases h : curLabel t = x <;> simp [h]))
+    (simp only [evalStepT]; apply List.filter_congr; intro t ht
+     rcases hsome t ht with h1 | h1
+     · simp [keepHas, evalHas, evalHasList, allTrue, keepHasLabel, matchesCond, foundIn, hv t, str_beq, h1]
+       try (by_cases h : curLabel t = x <;> simp [h])
+     · simp [keepHas, evalHas, evalHasList, allTrue, keepHasLabel, matchesCond, foundIn, hv t, str_beq, h1])
+
+/-- The two spellings differ exactly on a row without a current element and the label "":
+    `has(eq(_label, ""))` keeps it, `hasLabel([""])` drops it (Go: `HasLabel.Process` tests
+    `!t.IsNull()` first; `has` evaluates the condition on the empty document). -/
+theorem spellings_differ_on_null_row (k : String) (hc : keyIsCurrent k = true)
+    (hp : Path.jsonPathOf k = ["label"]) (from_ : DataType) (t : Traveler) (hcur : t.cur = none) :
+    evalStepT numOf g from_ (.has (.cond k .eq (.str ""))) [t] = [t]
+    ∧ evalStepT numOf g from_ (.hasLabel [""]) [t] = [] := by
+  have hv := value_label t k hc hp
+  constructor
+  · simp [evalStepT, keepHas, evalHas, matchesCond, hv, str_beq, curLabel, hcur]
+  · simp [evalStepT, keepHasLabel, hcur]
 
 /-- The same for id filters (`hasId(x)`, `has(eq(_gid,x))`, `has(within(_gid,[x]))`, wrapped). -/
 theorem spellings_agree_id (k x : String) (hc : keyIsCurrent k = true)
@@ -132,9 +158,10 @@ theorem extracted_ids_sound (k : String) (c : Cond) (a : JV) (vals : List String
 
 theorem extracted_labels_sound (k : String) (c : Cond) (a : JV) (vals : List String)
     (hc : keyIsCurrent k = true) (hp : Path.jsonPathOf k = ["label"])
-    (h : extractHasVals (.cond k c a) = some vals) (hne : vals ≠ []) (t : Traveler) :
+    (h : extractHasVals (.cond k c a) = some vals) (hne : vals ≠ []) (t : Traveler)
+    (hcur : t.cur.isSome = true) :
     keepHas numOf (.cond k c a) t = keepHasLabel vals t := by
-  simp only [keepHas, evalHas, keepHasLabel, value_label t k hc hp]
+  simp only [keepHas, evalHas, keepHasLabel, value_label t k hc hp, hcur, Bool.true_and]
   exact extract_sound numOf k c a vals h hne (curLabel t)
 
 /-! ### count() -/
